@@ -1,6 +1,7 @@
 package nc
 
 import (
+	"go/types"
 	"strings"
 
 	"golang.org/x/tools/go/ssa"
@@ -58,29 +59,82 @@ func (c *Ctx) ruleHashToCurveCensus(rule string) {
 			}
 			return "sha256 inputs found: " + strings.Join(got, " ; ")
 		}())
-	// counter: little endian, 4 bytes
-	puts := c.callsNamed(f, "encoding/binary.(littleEndian).PutUint32")
-	okLE := false
-	var buf string
-	for _, p := range puts {
-		d := c.P.Describe(p)
-		b := o.Of(d.Args[0])
-		if strings.HasSuffix(b.String(), "[:#4]") || strings.Contains(b.String(), "[4]") {
-			okLE = true
-			buf = b.String()
+	// counter: little endian, 4 bytes. Buffers are identified by the allocation behind the slice, digests by
+	// the call that produced the array the slice is taken of (value identity, not printed provenance).
+	base := func(v ssa.Value) ssa.Value {
+		for {
+			switch x := v.(type) {
+			case *ssa.Slice:
+				v = x.X
+			case *ssa.Convert:
+				v = x.X
+			case *ssa.ChangeType:
+				v = x.X
+			default:
+				return v
+			}
 		}
 	}
-	R.Check(rule, fk, "counter encoded little-endian in 4 bytes", c.P.Pos(f.Pos()), okLE, "the counter is appended as a 4-byte little-endian value", "no binary.LittleEndian.PutUint32 into a 4-byte buffer")
+	fourBytes := func(v ssa.Value) bool {
+		switch x := v.(type) {
+		case *ssa.MakeSlice:
+			n, ok := constInt(x.Len)
+			return ok && n == 4
+		case *ssa.Alloc:
+			if a, ok := x.Type().Underlying().(*types.Pointer).Elem().Underlying().(*types.Array); ok {
+				return a.Len() == 4
+			}
+		}
+		return false
+	}
+	holdsFirst := func(v ssa.Value) bool {
+		al, ok := base(v).(*ssa.Alloc)
+		if !ok || first == nil {
+			return false
+		}
+		n := 0
+		for _, ref := range *al.Referrers() {
+			if st, ok := ref.(*ssa.Store); ok && st.Addr == al {
+				n++
+				if cv, ok := st.Val.(*ssa.Call); !ok || ssa.CallInstruction(cv) != first {
+					return false
+				}
+			}
+		}
+		return n == 1
+	}
+	isCounter := func(v ssa.Value) bool {
+		e := o.Of(v)
+		return e.K == "acc" && strings.HasPrefix(e.S, "+") && len(e.Args) == 2 && isConst(e.Args[0], "0") && isConst(e.Args[1], "1")
+	}
+	okLE := false
+	var bufAlloc ssa.Value
+	var appended ssa.Value // result of LittleEndian.AppendUint32(first digest, counter)
+	for _, p := range c.callsNamed(f, "encoding/binary.(littleEndian).PutUint32") {
+		d := c.P.Describe(p)
+		if b := base(d.Args[0]); fourBytes(b) && isCounter(d.Args[1]) {
+			okLE, bufAlloc = true, b
+		}
+	}
+	for _, p := range c.callsNamed(f, "encoding/binary.(littleEndian).AppendUint32") {
+		d := c.P.Describe(p)
+		if holdsFirst(d.Args[0]) && isCounter(d.Args[1]) {
+			okLE, appended = true, p.Value()
+		}
+	}
+	R.Check(rule, fk, "counter encoded little-endian in 4 bytes", c.P.Pos(f.Pos()), okLE, "the counter is appended as a 4-byte little-endian value", "no binary.LittleEndian.PutUint32 into a 4-byte buffer / AppendUint32 of the loop counter")
 	for _, s := range sums {
 		if s == first {
 			continue
 		}
-		e := o.Of(c.P.Describe(s).Args[0])
-		if e.K == "append" && len(e.Args) == 2 && e.Args[1].String() == buf {
-			for _, a := range e.Args[0].Alts() {
-				if a.K == "call" && first != nil && a.Call == first {
-					second = s
-				}
+		arg0 := c.P.Describe(s).Args[0]
+		if appended != nil && arg0 == appended {
+			second = s
+			continue
+		}
+		if ap, ok := arg0.(*ssa.Call); ok && c.P.Describe(ap).Name == "builtin.append" && len(ap.Call.Args) == 2 {
+			if holdsFirst(ap.Call.Args[0]) && bufAlloc != nil && base(ap.Call.Args[1]) == bufAlloc {
+				second = s
 			}
 		}
 	}
@@ -146,8 +200,18 @@ func rulesC11(c *Ctx) {
 				}
 			}
 		}
+		// library form: the ascending list of the map's own keys, each key then looked up in the same map
+		sortedKeys := "slices.Sorted(maps.Keys(" + ks + "))"
+		keysForm := false
+		if !okSort {
+			for _, ci := range c.callsNamed(f, "slices.Sorted") {
+				if e := o.Of(ci.Value()); e.String() == sortedKeys {
+					okSort, keysForm, sorted = true, true, e
+				}
+			}
+		}
 		R.Check("R2", fk, "keys sorted ascending by amount (total order on uint64)", c.P.Pos(f.Pos()), okSort, "the keys are sorted by amount with a comparison that is a total order on uint64", why)
-		okAll := sorted != nil && strings.Contains(sorted.String(), "amount=key("+ks+")") && strings.Contains(sorted.String(), "pk=elem("+ks+")")
+		okAll := sorted != nil && (keysForm || (strings.Contains(sorted.String(), "amount=key("+ks+")") && strings.Contains(sorted.String(), "pk=elem("+ks+")")))
 		R.Check("R2", fk, "every key of the map takes part", c.P.Pos(f.Pos()), okAll, "the sorted list is built from every (amount, key) entry of the map", func() string {
 			if sorted != nil {
 				return short(sorted.String(), 160)
@@ -159,6 +223,25 @@ func rulesC11(c *Ctx) {
 			e := o.Of(c.P.Describe(ci).Args[0])
 			okSer = e.K == "acc" && e.S == "append" && strings.Contains(e.String(), "SerializeCompressed(elem(") && !strings.Contains(e.String(), "Uncompressed")
 			okHash = isCall(o.Of(c.P.Describe(ci).Recv), "crypto/sha256.New")
+		}
+		// one-shot digest: sha256.Sum256(concatenation)
+		for _, ci := range c.callsNamed(f, fnSha256) {
+			e := o.Of(c.P.Describe(ci).Args[0])
+			if e.K == "acc" && e.S == "append" && strings.Contains(e.String(), "SerializeCompressed(") && !strings.Contains(e.String(), "Uncompressed") {
+				if !keysForm && strings.Contains(e.String(), "SerializeCompressed(elem(") {
+					okSer, okHash = true, true
+				}
+				if keysForm && strings.Contains(e.String(), "SerializeCompressed("+ks+"[elem("+sortedKeys+")])") {
+					okSer, okHash = true, true
+				}
+			}
+		}
+		if keysForm && !okHash {
+			for _, ci := range c.callsNamed(f, "(hash.Hash).Write") {
+				e := o.Of(c.P.Describe(ci).Args[0])
+				okSer = e.K == "acc" && e.S == "append" && strings.Contains(e.String(), "SerializeCompressed("+ks+"[elem("+sortedKeys+")])")
+				okHash = isCall(o.Of(c.P.Describe(ci).Recv), "crypto/sha256.New")
+			}
 		}
 		R.Check("R2", fk, "compressed keys of the whole sorted list are concatenated", c.P.Pos(f.Pos()), okSer, "the digest input is the concatenation of the compressed serialisation of every sorted key", "")
 		R.Check("R2", fk, "SHA-256", c.P.Pos(f.Pos()), okHash, "the digest is SHA-256", "")
